@@ -68,6 +68,18 @@ func init() {
 	// whatever lal wanted to send to an RTSP subscriber is already in the subscriber's (unbounded) queue.
 	// This only makes the RTSP subscriber's state machine below deterministic.
 	rtsp.VerifSetCommandSessionWriteChanSize(0)
+
+	// All-on cases write HLS fragments, playlists and two recordings per case; on a loaded machine the disk is the
+	// bottleneck by an order of magnitude.  Scratch directories go to tmpfs when there is one (removed per case).
+	if os.Getenv("VERIF_SCRATCH") == "" {
+		if st, err := os.Stat("/dev/shm"); err == nil && st.IsDir() {
+			if f, err := os.CreateTemp("/dev/shm", "c05probe"); err == nil {
+				_ = f.Close()
+				_ = os.Remove(f.Name())
+				_ = os.Setenv("VERIF_SCRATCH", "/dev/shm")
+			}
+		}
+	}
 }
 
 // ---------------------------------------------------------------------------
@@ -527,6 +539,7 @@ func drive(e *env, c Case) *pbt.Violation {
 			}
 		}
 		e.seq++
+		pbt.Count("other-stream-probes", 1)
 		return e.other.relayMarker(s, c.Out.Merge, e.seq)
 	}
 	probeAt := map[int]bool{}
@@ -618,6 +631,7 @@ func drive(e *env, c Case) *pbt.Violation {
 			if heldBefore < 0 {
 				heldBefore = 0
 			}
+			pbt.Count("fan-out-judged-messages", 1)
 			if allow := maxFanOut * (1 + heldBefore); delta > allow {
 				return pbt.V("work/fan-out-not-bounded-by-size", "message %d (type %d ts %d class %s, %d bytes) made lal fan out %d messages (stream hook calls); at most %d x (1 + %d held back) = %d can be explained by its size (timestamps of the last messages: %s)",
 					k, m.Type, m.Ts, m.Class, n, delta, maxFanOut, heldBefore, allow, lastTimestamps(c.Msgs, k))
@@ -981,6 +995,7 @@ func (o *otherStreamT) relayMarker(s *inproc.Server, merge int, seq int) *pbt.Vi
 		gen.Item{Kind: "video", Ts: ts + 10, Key: true, Nals: []gen.NalSpec{{Hdr: []byte{0x65}, Len: 40, Seed: sr + 1, Serial: sr + 1}}},
 		gen.Item{Kind: "video", Ts: ts + 50, Nals: []gen.NalSpec{{Hdr: []byte{0x41}, Len: merge + 64, Seed: sr + 2, Serial: sr + 2}}},
 	)
+	got0 := o.sub.Conn.TotalReceived()
 	for _, it := range items {
 		if err := o.p.SendItem(it, cd, 0); err != nil {
 			if v := s.PanicViolation(); v != nil {
@@ -999,12 +1014,20 @@ func (o *otherStreamT) relayMarker(s *inproc.Server, merge int, seq int) *pbt.Vi
 		return v
 	}
 	want := items[mk].Payload(cd)
-	if o.sub.WaitFor(func(r lalclient.Rec) bool { return r.Type == gen.TypeVideo && bytes.Equal(r.Payload, want) }, 10*time.Second) < 0 {
+	if o.sub.WaitFor(func(r lalclient.Rec) bool { return r.Type == gen.TypeVideo && bytes.Equal(r.Payload, want) }, lalclient.DeliverTimeout) < 0 {
 		if v := s.PanicViolation(); v != nil {
 			return v
 		}
 		if o.sub.Ended() || o.p.Conn.PeerGone() {
 			return pbt.V("other-stream/not-relayed", "the independent stream's sessions were ended by lal (subscriber ended=%v, publisher gone=%v); records received: %d", o.sub.Ended(), o.p.Conn.PeerGone(), len(o.sub.Recs()))
+		}
+		if err := o.sub.Err(); err != nil {
+			return pbt.V("other-stream/framing", "the independent stream's subscriber: %v", err)
+		}
+		// the publisher's session has processed the marker (it is back in Read); corroboration that this is not a
+		// slow reader: lal has not written a single byte to the subscriber's connection since
+		if got := o.sub.Conn.TotalReceived(); got == got0 {
+			return pbt.V("other-stream/not-relayed", "marker %d of the independent stream (key frame + filler, processed by lal) was not relayed: lal wrote 0 bytes to its subscriber in %v (%d records received before)", seq, lalclient.DeliverTimeout, len(o.sub.Recs()))
 		}
 		return otherFailure(s, "marker not relayed", fmt.Errorf("timeout, %d records received", len(o.sub.Recs())))
 	}
@@ -1030,6 +1053,6 @@ func TestPublishPayload(t *testing.T) {
 	})
 	pbt.Run(t, pbt.Spec[Case]{
 		ID: "C05", Name: "publish-payload", Gen: genCase, Run: run, Classify: classify,
-		Quick: 1500, Thorough: 5000, Isolate: true,
+		Quick: 3000, Thorough: 10000, Isolate: true,
 	})
 }
